@@ -7,6 +7,7 @@
     expected outcome (Legs.tla); each is executed against the real yastn.Leg.
 """
 from __future__ import annotations
+import json
 import itertools
 import random
 import numpy as np
@@ -53,7 +54,10 @@ def fuse_traces(tier, rep):
                     r2 = [list(cls.add_charges(*map(tuple, r), signatures=ss, new_signature=snew)) for r in sub]
                     ev.append({'op': 'add_charges', 'sym': name, 'ss': list(ss), 'snew': snew, 'ts': sub, 'res': r2})
                     npoints += len(sub)
-            traces.append({'what': '%s m=%d B=%d' % (name, m, B), 'ev': ev})
+            # events are checked one by one (no state): a long trace is cut into pieces that the JSON reader of TLC takes comfortably (< ~8 MB a line)
+            per = max(1, 8000000 // max(1, len(json.dumps(ev[0]))))
+            for k0 in range(0, len(ev), per):
+                traces.append({'what': '%s m=%d B=%d%s' % (name, m, B, '' if len(ev) <= per else ' part %d' % (k0 // per)), 'ev': ev[k0:k0 + per]})
         # defaults of add_charges
         ev = []
         pts = box(mod, B)
